@@ -1,5 +1,6 @@
 import KafVerif.Gen.C18LeaseOps
 import KafVerif.Model.LeaseSessionOps
+import KafVerif.Model.AcquireAllOps
 import KafVerif.Model.Lease
 /-!
 C19, static tie.  `Gen/C18LeaseOps.lean` is regenerated from the CURRENT `lease_manager.go` (go/ast, `generate` of
@@ -33,6 +34,37 @@ theorem session_loss_local (v : Variant) (s : State) (b b' : Nat) (hb : b' ≠ b
   cases hs : (s.mgr b).session with
   | none => simp [step, hs]
   | some l => simp [step, hs, owns, setMgr, hb]
+
+/-! ### `PartitionLeaseManager.AcquireAll`: no result slot is left at its zero value
+
+`acquirePartitionLeases` reads `Err == nil` as "lease held"; a slot starts as nil.  The model (`ProduceGate.acquireAll`) writes
+every slot of a not-yet-owned partition from the return value of its Acquire (`KafVerif.C19.acquireAll_slot_from_acquire`), also
+under cancellation (`cancelled_acquire_is_error`).  These two obligations tie that to the CURRENT source. -/
+
+/-- the skeleton of `AcquireAll` regenerated from partition_lease.go IS the one the model was written against -/
+theorem acquireall_ops_match : KafVerif.Gen.C18.acquireAllRows = KafVerif.AcquireAllOps.expected := by rfl
+
+/-- tolerant form (names WHAT broke): every return of `AcquireAll` is "nothing to acquire" or comes after the join of the
+fan-out, outside any `select`/loop; the error slot is stored directly from an `Acquire` call's return value, never through a
+channel message or under a race; the to-acquire list is "every partition that is not owned". -/
+theorem acquireAll_no_zero_value_result :
+    KafVerif.AcquireAllOps.noZeroValueResult KafVerif.Gen.C18.acquireAllRows = true := by decide +kernel
+
+/-! non-vacuity: the channel-collecting variant that stops on `ctx.Done()` is rejected (early return inside the collection
+loop, slot written from a channel message); so is a variant that simply forgets the join -/
+example : KafVerif.AcquireAllOps.noZeroValueResult
+    [⟨"AcquireAll", ["for i, p := range partitions", "!m.lm.Owns(partitionResourceID(p.Topic, p.Partition))"], [], .write "needAcquire" "" "append(needAcquire, i)" false⟩,
+     ⟨"AcquireAll", ["len(needAcquire) == 0"], ["needAcquire"], .ret ["results"]⟩,
+     ⟨"AcquireAll", ["len(needAcquire) != 0", "for _, idx := range needAcquire", "in func literal"], ["needAcquire"], .call "Acquire" ["ctx", "partitions[idx].Topic", "partitions[idx].Partition"] false⟩,
+     ⟨"AcquireAll", ["len(needAcquire) != 0", "for _ := range needAcquire", "select <-make(chan outcome, len(needAcquire))"], ["needAcquire"], .write "results[o.idx].Err" "" "o.err" false⟩,
+     ⟨"AcquireAll", ["len(needAcquire) != 0", "for _ := range needAcquire", "select <-ctx.Done()"], ["needAcquire"], .ret ["results"]⟩,
+     ⟨"AcquireAll", ["len(needAcquire) != 0"], ["needAcquire"], .ret ["results"]⟩] = false := by decide +kernel
+example : KafVerif.AcquireAllOps.noZeroValueResult
+    [⟨"AcquireAll", ["for i, p := range partitions", "!m.lm.Owns(partitionResourceID(p.Topic, p.Partition))"], [], .write "needAcquire" "" "append(needAcquire, i)" false⟩,
+     ⟨"AcquireAll", ["len(needAcquire) == 0"], ["needAcquire"], .ret ["results"]⟩,
+     ⟨"AcquireAll", ["len(needAcquire) != 0", "for _, idx := range needAcquire", "in func literal"], ["needAcquire"], .write "results[idx].Err" "" "Acquire#1.0" false⟩,
+     ⟨"AcquireAll", ["len(needAcquire) != 0"], ["needAcquire"], .ret ["results"]⟩] = false := by decide +kernel
+example : KafVerif.AcquireAllOps.noZeroValueResult KafVerif.AcquireAllOps.expected = true := by decide +kernel
 
 /-! non-vacuity: the `liveSession()` refactoring (session dropped, map kept) is rejected; the current shape is accepted -/
 example : sessionDropClearsOwned
